@@ -177,5 +177,61 @@ contract(
         2: dict(invariants=["mem_limits.get(region) is not None and max == mem_limits.get(region)",
                             "all(range_ok(max, range_set.ranges[i][0], range_set.ranges[i][1]) for i in range(_it2))"]),
     },
+    hints={
+        # at each of the three raise statements: the current range / region / access is a witness of the violation (proof steps)
+        "before:raise VelaError(": [
+            "not region_ok(region, range_set, mem_limits)",
+            "not access_ok(mem_access, mem_limits)",
+            "not limits_ok(memory_accesses, mem_limits)",
+        ],
+        # after the loop over a region map: every present region was listed, hence the whole access is fine
+        "after:for region, range_set in mem_access.regions.items()": ["access_ok(mem_access, mem_limits)"],
+    },
     assumptions=["dict iteration order is arbitrary (items() is modelled as a duplicate-free listing of exactly the present keys)"],
+)
+
+
+# ===== region / limit tables (high_level_command_to_npu_op.py) ===========================================================
+from ethosu.vela import high_level_command_to_npu_op as hl  # noqa: E402
+from ethosu.vela.architecture_features import MemPort  # noqa: E402
+from ethosu.vela.tensor import MemArea, MemType  # noqa: E402
+
+from contracts.c_config import ARCHF, mapped  # noqa: E402
+
+REGION_CONST, REGION_SCRATCH, REGION_SCRATCH_FAST = 0, 1, 2     # base pointer indices of the driver interface (constants / arena / fast arena)
+PORTS_OK = ["arch.cache_mem_area in (MemPort.Axi0, MemPort.Axi1)", "arch.arena_mem_area in (MemPort.Axi0, MemPort.Axi1)"]
+
+
+def spilling(arch):
+    """Dedicated-SRAM memory mode: the cache area is Sram and is not the arena area"""
+    return mapped(arch, arch.cache_mem_area) == MemArea.Sram and arch.cache_mem_area != arch.arena_mem_area
+
+
+contract(
+    "ethosu.vela.high_level_command_to_npu_op:get_region", props=["C02"],
+    types=dict(mem_type=TEnum(MemType, members=list(MemType.all())), arch=ARCHF),
+    requires=PORTS_OK,
+    ensures=[
+        # constants live in region 0 and ONLY the two permanent memory types are mapped there
+        "(result == REGION_CONST) == (mem_type in (MemType.Permanent_NPU, MemType.Permanent_CPU))",
+        "implies(mem_type == MemType.Scratch, result == REGION_SCRATCH)",
+        "implies(mem_type == MemType.Scratch_fast, result == (REGION_SCRATCH_FAST if spilling(arch) else REGION_SCRATCH))",
+    ],
+    returns=PyInt,
+)
+
+contract(
+    "ethosu.vela.high_level_command_to_npu_op:get_mem_limits_for_regions", props=["C02"],
+    types=dict(arch=ARCHF),
+    requires=PORTS_OK,
+    ensures=[
+        "result.get(REGION_CONST) == arch.max_address_offset and result.get(REGION_SCRATCH) == arch.max_address_offset",
+        # Dedicated-SRAM modes: the fast scratch region is limited by the configured arena cache size; otherwise it does not exist
+        "implies(spilling(arch), result.get(REGION_SCRATCH_FAST) == arch.arena_cache_size)",
+        "implies(not spilling(arch), result.get(REGION_SCRATCH_FAST) is None)",
+        "result.get(ru.BASE_PTR_INDEX_MEM2MEM) == arch.shram_size_bytes",
+        # no other region is accepted
+        "forall_int(lambda r: implies(result.get(r) is not None, r in (REGION_CONST, REGION_SCRATCH, REGION_SCRATCH_FAST, ru.BASE_PTR_INDEX_MEM2MEM)))",
+    ],
+    returns=LIMITS, local_types={"mem_limits": LIMITS}, allocates=True,
 )
